@@ -59,26 +59,33 @@ func (p phase) String() string {
 	return p.Table + "/" + string(p.Kind)
 }
 
-func isRootTable(t string) bool { return t == "owners" || t == "nodes" }
+func isRootTable(t string) bool { return t == "owners" || t == "nodes" || t == "staffs" }
+
+// belongs-to records are saved before their parents' statement
+func isBelongsTable(t string) bool { return t == "companies" }
 
 func rank(p phase) int {
-	if isRootTable(p.Table) {
+	base := 5 // has-one / has-many / many2many: after the parents' statement
+	switch {
+	case isRootTable(p.Table):
 		switch p.Kind {
 		case 'B':
 			return 0
 		case 'S':
-			return 1
+			return 4
 		default:
-			return 5
+			return 8
 		}
+	case isBelongsTable(p.Table):
+		base = 1
 	}
 	switch p.Kind {
 	case 'B':
-		return 2
+		return base
 	case 'S':
-		return 3
+		return base + 1
 	default:
-		return 4
+		return base + 2
 	}
 }
 
@@ -586,7 +593,7 @@ func judge(o *Obs) (fs []finding) {
 		}
 		existingChild := map[string]bool{}
 		for _, r := range o.Before {
-			if c.Op == "save_existing" && r.Table != "owners" && r.ID != 0 {
+			if (c.Op == "save_existing" && r.Table != "owners" || c.Belongs != "" && r.Table == "companies") && r.ID != 0 {
 				// an existing child is only re-linked by its parent's save
 				// (ON CONFLICT DO UPDATE of the foreign key): its other columns
 				// are documented not to be stored without FullSaveAssociations
